@@ -69,6 +69,8 @@ Failed ==
     F("conf_pevs", (phase = "pack" /\ T.genericp /\ CP.st = "done" /\ MP.st = "done") => CP.evs = MP.evs) \cup
     \* ---- the properties, on the recorded observations
     F("C04_Exact", C04_Exact(T.raw, CU)) \cup
+    \* the code accepted an input on which the specification's unpack fails (bytes that are not there)
+    F("C04_OverAccept", ~(CU.st = "done" /\ MU.st = "fail")) \cup
     F("C01_Bytes", T.c01 => C01_Bytes(T.raw, T.start, CU, CP)) \cup
     F("C01_Fill", T.c01 => C01_Fill(T.raw, T.start, CU, CP)) \cup
     F("C01_Len", T.c01 => C01_Len(T.raw, T.start, CU, CP)) \cup
@@ -79,7 +81,10 @@ Failed ==
     F("C10_Same", (T.c01 /\ T.generic /\ T.genericp) => C10_Same(DP, T.start, CU, CP)) \cup
     F("C10_Least", T.generic => C10_Least(DP, CU)) \cup
     F("C12_Shape", (CU.st = "fail" => C12_Shape(DP, CU.err)) /\ (CP.st = "fail" => C12_Shape(DP, CP.err))) \cup
-    F("C14_Lockstep", T.has2 => C14_Lockstep(CU, T.cu2, T.shift))
+    \* C14 on a recorded pair: cu = run on (raw, 0), cu2 = run on (pre \o raw \o post, shift)
+    F("C14_Lockstep", (T.has2 /\ ((CU.st = "done" /\ ~OpenEnded(MU)) \/ (CU.st = "fail" /\ T.nopost)))
+                          => C14_Lockstep(CU, T.cu2, T.shift)) \cup
+    F("dev_F10b", ~(T.has2 /\ Dev_F10b(T.shift, T.cu2)))
 
 Report == Terminal => PrintT(<<"RES", tid, SetToSeq(Failed)>>)
 =============================================================================
